@@ -30,7 +30,9 @@ def zones():
     if _Z is None:
         cfg = C.json.load(open(C.REPO + "/src/json/config.json", encoding="utf-8"))
         # the zone regex reads names of 2..4 capital letters (longer configured names are C11's business)
-        _Z = sorted((k.upper(), v) for k, v in cfg["timezones"].items() if 2 <= len(k) <= 4 and k.isalpha())
+        # ... and that are not also currency codes ('5 TMT' is an amount of Turkmen manat, as C11's quantifier says)
+        cur = {k.upper() for k in cfg["currencies"]} | {k.upper() for k in cfg["currency_alias"]}
+        _Z = sorted((k.upper(), v) for k, v in cfg["timezones"].items() if 2 <= len(k) <= 4 and k.isalpha() and k.upper() not in cur)
     return _Z
 
 
